@@ -971,7 +971,8 @@ func (c *seqCase) scratchHead() []byte {
 
 // genScript draws what is done with the same dao while the iterator of q is
 // open: reads, scans and second iterators on other prefixes / contract ids, and
-// writes to a scratch contract (they never touch the range being iterated).
+// writes to a scratch contract (apart from the first step they never touch the
+// range being iterated).
 func (c *seqCase) genScript(q *query) {
 	r := c.r
 	for i := 0; i < 6; i++ {
@@ -979,6 +980,16 @@ func (c *seqCase) genScript(q *query) {
 		n := r.Weighted([]int{2, 5, 2})
 		if i == 0 && r.Bool() {
 			n = 0 // half of the iterators are left alone until the first item has been pulled
+		}
+		if i == 0 && r.Intn(3) == 0 {
+			// a write INTO the iterated range right after the call, before the first
+			// item is pulled: the iterator shows the content as of the call (whatever
+			// a background goroutine is doing by then), the write lands in the store
+			a := inter{kind: 1, head: q.head, sfx: bytes.Clone(c.sfx[r.Intn(len(c.sfx))])}
+			if r.Intn(3) != 0 {
+				a.val = c.val()
+			}
+			acts = append(acts, a)
 		}
 		for j := 0; j < n; j++ {
 			a := inter{kind: r.Weighted([]int{4, 2, 3, 1}), sfx: bytes.Clone(c.sfx[r.Intn(len(c.sfx))])}
